@@ -170,7 +170,36 @@ def sim_process(ctx):
         # ... exactly for the reported records: the guard of the report (the sampled trigger) and the level test
         reported = [py_guard(l) for lx, l in logs if lx is ex]
         ok = ok or (loops(e)[0][1] == recs and bool(reported) and equivalent(g, f_and(reported[0], want)) is None)
-    ctx.check(ok, "C34.sim-error-fails", errs[0][1].site if errs else fn.site, "handle_logs.on_error", found="; ".join(fstr(py_guard(e)) for _, e in errs) or "on_error never called", required="on_error() for every reported record with level >= ERROR (a failed assertion ends the simulation with a failure)")
+    # F38: ... and only after every record of the cycle has been reported: the harness' on_error raises, so a call inside the
+    # loop over the records drops the records registered after the failing one.  Accepted: the loop only remembers that an error
+    # was reported (a flag that starts False and is set exactly when a reported record has level >= ERROR), on_error() follows the
+    # loop under that flag.
+    in_loop = ok
+    ok = False
+    after = fn.facts(Effect, lambda e: e.call == ("call", on_error, (), ()) and not loops(e))
+    for ex, e in after:
+        frs = [fr for fr in e.frames if fr[0] == "py"]
+        if len(frs) != 1 or frs[0][1][0] != "loopvar" or frs[0][2] is not True:
+            continue
+        key = (frs[0][1][1], frs[0][1][2])
+        good = True
+        n_set = 0
+        for cx in fn.exs:
+            ld = cx.loopdefs.get(key)
+            if ld is None:
+                continue
+            init, end = ld
+            dec = {tstr(t): v for t, v in cx.config}
+            reported = [py_guard(l) for l in cx.of(Effect) if is_call_a(l.call, "log") and len(loops(l)) == 1 and loops(l)[0][1] == recs]
+            lvl = [v for t, v in cx.config if t[0] == "op" and t[1] == "<=" and t[2] == pat("logging.ERROR")]
+            is_err = bool(reported) and bool(lvl) and lvl[-1] is True
+            good = good and init == ("c", False) and ((end == ("c", True)) == is_err)
+            n_set += 1 if end == ("c", True) else 0
+        ok = ok or (good and n_set >= 1)
+    found_txt = "; ".join(fstr(py_guard(e)) for _, e in errs) or ("after the loop under a flag" if after else "on_error never called")
+    if in_loop and not ok:
+        found_txt = "on_error() inside the loop over the records (the records after the failing one are not reported)"
+    ctx.check(ok, "C34.sim-error-fails", (errs or after)[0][1].site if (errs or after) else fn.site, "handle_logs.on_error", found=found_txt, required="on_error() exactly when a record with level >= ERROR was reported in the cycle, after all records of the cycle have been reported (a failed assertion ends the simulation with a failure, and its context is not lost)")
     # production order
     fp = Fn(ctx.repo, SIM, "make_logging_process", "C34", enter=("log_process",))
     ok = False
@@ -260,12 +289,46 @@ def format_rule(ctx):
     ctx.check(any(pmatch("''.join(Q_c)", r.value) is not None for _, r in rets), "C34.python-format", fn.site, "LogRecordInfo.format.join", found="; ".join(tstr(r.value) for _, r in rets), required="the message is the concatenation of the chunks", nontrivial=False)
 
 
+def formatter_total(ctx):
+    """F39: the formatter of the simulation harness produces a line for a record of ANY level (LogLevel is a plain int; records at
+    CRITICAL or at a numeric level are accepted).  A subscript of a per-level table raises KeyError for the other levels, and
+    logging swallows it: the record is not reported."""
+    import ast
+
+    mi = ctx.repo.module(SIM)
+    fmts = [f for c in mi.tree.body if isinstance(c, ast.ClassDef) for f in c.body if isinstance(f, ast.FunctionDef) and f.name == "format"
+            and any(isinstance(b, ast.Attribute) and b.attr == "Formatter" or isinstance(b, ast.Name) and b.id == "Formatter" for b in c.bases)]
+    ctx.floor("C34", "log formatters of the simulation harness", len(fmts), 1, SIM)
+    for f in fmts:
+        by_level = [n for n in ast.walk(f) if isinstance(n, ast.Subscript) and any(isinstance(x, ast.Attribute) and x.attr in ("levelno", "levelname") for x in ast.walk(n.slice))]
+        ctx.check(not by_level, "C34.formatter-total", f"{SIM}:{f.lineno}", "_LogFormatter.format", found=f"{len(by_level)} table lookup(s) subscripted by the record's level",
+                  required="no lookup that fails for a level outside the table (use .get with a default): a record of any level is formatted")
+
+
+def errors_watched(ctx):
+    """F40: the records whose ERROR level ends the simulation must not be subject to the *display* filters: with a namespace filter
+    (or a level above ERROR) a failed assertion elsewhere would neither be shown nor end the simulation."""
+    fn = Fn(ctx.repo, SIM, "make_logging_process", "C34", enter=("handle_logs",))
+    level, ns = fn.param(0), fn.param(1)
+    only_filtered = False
+    watched = []
+    for ex in fn.exs[:1]:
+        for vid, d in ex.vardefs.items():
+            if has("tlog.get_log_records(Q_l, Q_n)", d) or has("tlog.get_log_records(Q_l)", d):
+                watched.append(d)
+    only_filtered = bool(watched) and all(pmatch("tlog.get_log_records(Q_l, Q_n)", d) == {"l": level, "n": ns} for d in watched)
+    ctx.check(not only_filtered, "C34.sim-errors-watched", fn.site, "make_logging_process.records", found="; ".join(tstr(d)[:80] for d in watched) or "no record list",
+              required="records with level >= ERROR are watched whatever the requested level / namespace filter (the filter selects what is displayed)")
+
+
 def check(ctx):
     ctx.use(HW, SIM)
     level_table(ctx)
     log_registration(ctx)
     sim_process(ctx)
     format_rule(ctx)
+    formatter_total(ctx)
+    errors_watched(ctx)
 
 
 MUTANTS = [
@@ -275,7 +338,11 @@ MUTANTS = [
     ("assertion-not-negated", HW, "self.error(m, ~Value.cast(value).any(), format, *args, src_loc=get_src_loc(src_loc), **kwargs)", "self.error(m, Value.cast(value).any(), format, *args, src_loc=get_src_loc(src_loc), **kwargs)"),
     ("assertion-as-warning", HW, "self.error(m, ~Value.cast(value).any(), format, *args, src_loc=get_src_loc(src_loc), **kwargs)", "self.warning(m, ~Value.cast(value).any(), format, *args, src_loc=get_src_loc(src_loc), **kwargs)"),
     ("filter-strict-level", HW, "if rec.level >= level and re.search(namespace_regexp, rec.logger_name)", "if rec.level > level and re.search(namespace_regexp, rec.logger_name)"),
-    ("sim-error-only-critical", SIM, "            if record.level >= logging.ERROR:\n                on_error()", "            if record.level > logging.ERROR:\n                on_error()"),
+    ("sim-error-only-critical", SIM, "            if record.level >= logging.ERROR:\n                error = True", "            if record.level > logging.ERROR:\n                error = True"),
+    ("sim-error-inside-loop", SIM, "            if record.level >= logging.ERROR:\n                error = True", "            if record.level >= logging.ERROR:\n                on_error()"),
+    ("sim-error-flag-last-record", SIM, "            if record.level >= logging.ERROR:\n                error = True", "            error = record.level >= logging.ERROR"),
+    ("sim-error-never-raised", SIM, "        if error:\n            on_error()\n", ""),
+    ("formatter-partial-table", SIM, "self.loglevel2colour.get(record.levelno, \"{}\")", "self.loglevel2colour[record.levelno]"),
     ("sim-reports-untriggered", SIM, "            if not trigger:\n                continue\n", ""),
     ("sim-values-before-trigger", SIM, "            trigger = next(it)\n            values = [next(it) for _ in record.fields]", "            values = [next(it) for _ in record.fields]\n            trigger = next(it)"),
     ("sim-sample-order", SIM, "((record.trigger,) + record.fields for record in records)", "(record.fields + (record.trigger,) for record in records)"),
